@@ -74,6 +74,9 @@ def gen_ufunc_case(rng):
             if kind in ("npscalar", "pyscalar"):
                 kind = "array"
         vals = rand_operand_values(rng, shp if kind in ("tensor", "array") else (), dtype)
+        if fn == "power" and i == 1 and kind in ("pyscalar", "npscalar") and np.dtype(dtype).kind in "fiu" and rng.random() < 0.6:
+            # the ** operator has a dedicated route for the exponents 1 and 2 (Positive / Square)
+            vals = np.array(rng.choice([1, 2]), dtype=dtype)
         if kind == "pyscalar":
             py = vals.item()
             name = b.name("p")
@@ -207,6 +210,21 @@ def _run(backend, case, untracked=False, out_proto=None, mask=None, out_tensor=F
     return it.env[call["out"]], outarr, it
 
 
+def _strong_reference(case):
+    """NumPy's result for the case's call with Python scalars (leaves of kind 'pyscalar' and literal int/float arguments) converted by
+    np.asarray first, i.e. carrying their default dtype strongly."""
+    it = Interp("np", use_npf=True)
+    it.run(case["prog"], catch=False)
+    for st in case["prog"]:
+        if st["k"] == "leaf" and st.get("kind") == "pyscalar":
+            it.env[st["out"]] = np.asarray(it.env[st["out"]])
+    call = dict(case["call"])
+    call["a"] = [["a", np.asarray(a).dtype.name, [], [a]] if isinstance(a, (int, float)) and not isinstance(a, bool) else a for a in call.get("a", [])]
+    with np.errstate(all="ignore"):
+        it.exec(len(case["prog"]), call)
+    return np.asarray(it.env[call["out"]])
+
+
 def compare(tag, got, want, viol, fn, case, cnt, key):
     g, w = _norm(got), np.asarray(want)
     cnt[key] = cnt.get(key, 0) + 1
@@ -222,6 +240,15 @@ def compare(tag, got, want, viol, fn, case, cnt, key):
             except Exception:
                 cast_close = False
     pys = pys and cast_close
+    if pys:
+        # mechanism probe: the finding is that MyGrad types a Python scalar strongly (np.asarray(scalar)); NumPy's own result for the
+        # call with every Python scalar replaced that way must then be exactly MyGrad's (dtype and values)
+        try:
+            strong = _strong_reference(case)
+            pys = strong is not None and strong.dtype == g.dtype and strong.shape == g.shape and bool(
+                np.array_equal(strong, g, equal_nan=True) or np.allclose(strong.astype(float), g.astype(float), rtol=1e-6, atol=0, equal_nan=True))
+        except Exception:
+            pys = False
     if g.dtype != w.dtype:
         viol.append({"monitor": "O-np", "mech": f"dtype:{fn}", "pyscalar": pys,
                      "msg": f"{tag} {fn} {case['call'].get('sp')} {case['kinds']}: dtype {g.dtype} but NumPy gives {w.dtype}"})
@@ -306,7 +333,7 @@ import operator as _op_
 ND_BOOL1 = ["isfinite", "isinf", "isnan", "logical_not", "signbit"]
 ND_BOOL2 = ["equal", "not_equal", "greater", "greater_equal", "less", "less_equal", "logical_and", "logical_or", "logical_xor"]
 ND_CONST1 = ["ceil", "floor", "rint", "sign", "trunc"]
-ND_CONST2 = ["floor_divide", "fmod", "remainder", "divmod"]
+ND_CONST2 = ["floor_divide", "fmod", "remainder", "mod", "divmod"]
 ND_CMP_OPS = {"lt": _op_.lt, "le": _op_.le, "gt": _op_.gt, "ge": _op_.ge, "eq": _op_.eq, "ne": _op_.ne}
 ND_ARGRED = ["argmax", "argmin", "any"]
 ND_FUNCS2 = ["allclose", "isclose", "may_share_memory", "shares_memory", "result_type"]
